@@ -428,6 +428,31 @@ class RuleProxy:
         self._R.tables = v
 
 
+def guard(R, rule, what, fn):
+    """Run a rule shared from another property; if it cannot run on this tree (a role it needs is gone, an anchor is missing),
+    record an abstention for *that* rule instead of aborting the whole check - the property's other violations are still reported,
+    and without one the abstention fails closed."""
+    from ..paths import PathLimit
+    try:
+        return fn()
+    except (Undecided, KeyError, IndexError, PathLimit) as e:
+        R.abstain(rule, 'shared:%s' % what, 'shared rule could not be evaluated: %s: %s' % (type(e).__name__, str(e)[:160]), '')
+        return None
+
+
+def shared_rule(fn):
+    """Decorator for the `*_rule(F, R, rule, ...)` helpers (see guard)."""
+    import functools
+    import re as _re
+
+    @functools.wraps(fn)
+    def w(F, R, *a, **k):
+        rule = k.get('rule') or next((x for x in a if isinstance(x, str) and _re.match(r'^[A-Z]\d+[a-z]?$', x)), '?')
+        return guard(R, rule, fn.__name__, lambda: fn(F, R, *a, **k))
+    return w
+
+
+@shared_rule
 def transport_registration_rule(F, R, rule, op='queue_set'):
     """The transports' queue_set write the three area addresses they receive - each 64-bit address split into its own
     low/high words, into its own register - and nothing else (register traces of C10.M2 / C11.W3 under another rule id).
@@ -442,6 +467,7 @@ def transport_registration_rule(F, R, rule, op='queue_set'):
     _c11.run(F, RuleProxy(R, {'W3': rule}, only=_qs))
 
 
+@shared_rule
 def decode_tables_rule(F, R, rule, prefixes):
     """Reader and writer tables agree: a conversion defined on a field-less enum (inherent fn / From / TryFrom taking one
     integer) maps each integer it accepts to the variant whose discriminant is that integer - the discriminants are the
